@@ -363,6 +363,8 @@ class RingOracle:
         self.nonzero = list(nonzero)    # RE known non-zero in this case
         self.undecided = []
         self.allow_fork = False
+        self.fallback_generic = True
+        self.unjustified = []
         self.decisions = []
 
     def same_atom(self, a, b):
@@ -395,6 +397,12 @@ class RingOracle:
         self.undecided.append(atom)
         if self.allow_fork:
             return None
+        if self.fallback_generic:
+            # proceed as for a generic point; a pass under this assumption is reported as inconclusive, a failure
+            # is reported only if it reproduces natively
+            self.unjustified.append(atom)
+            self.nonzero.append(e)
+            return False
         raise ExecError("undecided-branch", "branch on %s of a ring expression that is neither identically zero nor "
                         "certified non-zero by the case hypotheses" % kind)
 
